@@ -179,30 +179,19 @@ class PopulationSizeHistory:
         """
         assert shape > 0, "Gamma shape parameter must be positive"
         assert rate > 0, "Gamma rate parameter must be positive"
-        C = np.exp(shape * np.log(rate) - scipy.special.loggamma(shape))
+        # The normalising constant times gamma(shape + k) / rate ** (shape + k)
+        # is 1, shape / rate and shape * (shape + 1) / rate**2 for k = 0, 1, 2;
+        # forming the individual factors overflows or underflows for large shapes
         gamma_cdf = scipy.special.gammainc
         cdf_breaks = np.append(self.coalescent_breaks, [np.inf])
-        cdf_0 = (
-            C
-            * scipy.special.gamma(shape)
-            / rate**shape
-            * np.diff(gamma_cdf(shape + 0, rate * cdf_breaks))
-        )
+        cdf_0 = np.diff(gamma_cdf(shape + 0, rate * cdf_breaks))
         mn_coef_0 = self.time_breaks - self.population_size * self.coalescent_breaks
         va_coef_0 = mn_coef_0**2
-        cdf_1 = (
-            C
-            * scipy.special.gamma(shape + 1)
-            / rate ** (shape + 1)
-            * np.diff(gamma_cdf(shape + 1, rate * cdf_breaks))
-        )
+        cdf_1 = shape / rate * np.diff(gamma_cdf(shape + 1, rate * cdf_breaks))
         mn_coef_1 = self.population_size
         va_coef_1 = mn_coef_0 * mn_coef_1 * 2
         cdf_2 = (
-            C
-            * scipy.special.gamma(shape + 2)
-            / rate ** (shape + 2)
-            * np.diff(gamma_cdf(shape + 2, rate * cdf_breaks))
+            shape * (shape + 1) / rate**2 * np.diff(gamma_cdf(shape + 2, rate * cdf_breaks))
         )
         va_coef_2 = mn_coef_1**2
         mn = np.sum(mn_coef_1 * cdf_1 + mn_coef_0 * cdf_0)
